@@ -708,7 +708,8 @@ class CSSSerializer:
         if rule.atkeyword:
             styleText = self.do_css_CSSStyleDeclaration(rule.style)
 
-            if styleText and rule.wellformed:
+            # (a margin box holding nothing but comments has no content)
+            if styleText and rule.wellformed and rule.style.length:
                 out = Out(self)
 
                 # # use seq but styledecl missing
